@@ -54,3 +54,18 @@ pub fn from_utf8_model(v: &[u8]) -> Result<&str, core::str::Utf8Error> {
         Err(unsafe { core::mem::zeroed() })
     }
 }
+
+/// S7: `str::is_ascii` = byte loop (std uses a word-at-a-time fast path with `align_offset`, which is
+/// what makes strings of symbolic length expensive; same situation as S4)
+pub fn is_ascii_model(s: &str) -> bool {
+    let b = s.as_bytes();
+    let mut i = 0;
+    let mut ok = true;
+    while i < b.len() {
+        if b[i] >= 0x80 {
+            ok = false;
+        }
+        i += 1;
+    }
+    ok
+}
